@@ -221,7 +221,7 @@ impl_parse! {
         "tag" => out.tag = Some(parse_assign_str(input)?),
         "content" => out.content = Some(parse_assign_str(input)?),
         "untagged" => out.untagged = true,
-        "concrete" => out.concrete = parse_concrete(input)?,
+        "concrete" => out.concrete.extend(parse_concrete(input)?),
         "bound" => out.bound = Some(parse_bound(input)?),
     }
 }
